@@ -117,7 +117,15 @@ def r14_2(ctx):
         # .. and it is that value itself: nothing is subtracted from / added to the selected limit on the way (time spent elsewhere, e.g. in
         # `wait`, is accounted for by the deadline behind the document candidate, never by shrinking the per-test-case limit)
         arith = []
-        for n in src.walk():
+
+        def above_min(n):
+            """nodes between the stored value and the min selection (the candidates below `min` are computed with arithmetic legitimately)"""
+            yield n
+            if n.kind == "call" and method_name(n.a) in ("Iterator::min", "Iterator::min_by_key", "Iterator::min_by"):
+                return
+            for k_ in n.kids:
+                yield from above_min(k_)
+        for n in above_min(src):
             if n.kind == "bin" and n.a in ("Sub", "SubWithOverflow", "Add", "AddWithOverflow", "Mul", "MulWithOverflow", "Div"):
                 arith.append(n.a)
             if n.kind == "call" and any(w in method_name(n.a).split("::")[-1] for w in ("sub", "add", "mul", "div", "elapsed", "min_by")) and \
@@ -499,7 +507,18 @@ def r14_8(ctx):
     after scrut exited - its EXIT trap then re-creates the already removed state directory)"""
     prog = ctx.prog
     r = prog.impl_fn("SubprocessRunner", "Runner", "run")
-    kills = [bb for bb, t in r.calls() if mname(t) in ("Popen::kill", "Popen::terminate")]
+    def _kills(body):
+        return [bb for bb, t in body.calls() if mname(t) in ("Popen::kill", "Popen::terminate")]
+
+    kills = _kills(r)
+    # a crate-local helper counts as a kill when every path through it passes Popen::kill (wrapper summary, depth 1)
+    for bb, t in r.calls():
+        if t.get("resolved_local"):
+            hb = prog.body_by_def(t["resolved"], r.crate)
+            if hb is not None and hb is not r:
+                hk = _kills(hb)
+                if hk and not any(rb in hb.reachable(0, removed_blocks=hk) for rb in hb.return_blocks()):
+                    kills.append(bb)
     touts = [(bb, si) for bb, si, rv in aggregates(r, "ExitStatus", "Timeout") if "subprocess" not in rv["adt"]]
     if not touts:
         raise AnchorError("SubprocessRunner::run constructs no ExitStatus::Timeout")
